@@ -46,7 +46,7 @@ def overlay_map(extra=None, skip_prefixes=()):
 
 def write_overlay(name, extra=None, skip_prefixes=()):
     os.makedirs(BUILD, exist_ok=True)
-    p = os.path.join(BUILD, "ov_%s.json" % name)
+    p = os.path.join(BUILD, "ov_%s_%d.json" % (name, os.getpid()))
     with open(p, "w") as f:
         json.dump({"Replace": overlay_map(extra, skip_prefixes)}, f)
     return p
@@ -63,7 +63,8 @@ def go_build(name, pkg, race=False, extra_overlay=None, tags="verif", test=False
     """Build ./<pkg> (a main package, possibly virtual) from REPO's working tree + overlay."""
     repo_clean_guard()
     ov = write_overlay(name, extra_overlay, skip_prefixes)
-    out = os.path.join(BUILD, "bin", name)
+    final = os.path.join(BUILD, "bin", name)
+    out = "%s.tmp.%d" % (final, os.getpid())  # built aside and renamed: a concurrent check may be running the old one
     os.makedirs(os.path.dirname(out), exist_ok=True)
     if test:
         cmd = ["go", "test", "-c", "-vet=off"]
@@ -75,10 +76,18 @@ def go_build(name, pkg, race=False, extra_overlay=None, tags="verif", test=False
     cmd.append("./" + pkg)
     t0 = time.time()
     r = subprocess.run(cmd, cwd=REPO, env=GOENV, stdout=subprocess.PIPE, stderr=subprocess.STDOUT, text=True)
+    try:
+        os.remove(ov)
+    except OSError:
+        pass
     if r.returncode != 0:
         raise MachineryError("build of %s failed:\n%s" % (name, r.stdout[-6000:]))
+    own = "%s.%d" % (final, os.getpid())
+    os.replace(out, own)  # each check process runs its own copy
+    import atexit
+    atexit.register(lambda p=own: os.path.exists(p) and os.remove(p))
     log("[build] %s (%.1fs)" % (name, time.time() - t0))
-    return out
+    return own
 
 
 # ----------------------------------------------------------------------------- workers
@@ -103,6 +112,11 @@ class SpaceResult:
 
 def _limits(as_bytes):
     def f():
+        try:  # a worker must not outlive the orchestrator (PR_SET_PDEATHSIG = 1)
+            import ctypes
+            ctypes.CDLL("libc.so.6", use_errno=True).prctl(1, signal.SIGKILL)
+        except Exception:
+            pass
         if as_bytes:
             resource.setrlimit(resource.RLIMIT_AS, (as_bytes, as_bytes))
         resource.setrlimit(resource.RLIMIT_CORE, (0, 0))
